@@ -427,6 +427,14 @@ func c9templates() (valid [][2]string, mismatch []string) {
 		add("func (t *T) Down(n int, a float64) float64 {\n\tif n == 0 {\n\t\treturn a\n\t}\n\treturn t.Down(n-1, a+0.5)\n}\n\n",
 			fmt.Sprintf("\tt := &T{}\n\tfmt.Println(t.Down(%d, 0))\n", depth), fmt.Sprintf("%v\n", float64(depth)*0.5))
 	}
+	// the results of one call delivered, in order, to elements, fields, map entries and blanks in every position
+	add("func three() (int, string, int) {\n\treturn 1, \"seven\", 3\n}\n\nfunc pair() (int, string) {\n\treturn 5, \"five\"\n}\n\ntype B struct {\n\tn int\n\ts string\n}\n\n",
+		"\txs := []int{0, 0}\n\tb := &B{}\n\tm := map[string]int{}\n\tvar q string\n\txs[0], _, xs[1] = three()\n\tfmt.Println(xs)\n\tb.n, _ = pair()\n\t_, b.s = pair()\n\tfmt.Println(b.n, b.s)\n\txs[1], q, m[\"k\"] = three()\n\t_, _, xs[0] = three()\n\tfmt.Println(xs, q, m[\"k\"])\n\t_, q, _ = three()\n\tb.n, b.s, xs[0] = three()\n\tfmt.Println(q, b.n, b.s, xs)\n",
+		"[1 3]\n5 five\n[3 1] seven 3\nseven 1 seven [3 1]\n")
+	// every call of a chain or a nest binds to its own receiver, also when the method names are the same
+	add("func mk(n int) *T {\n\treturn &T{n: n}\n}\n\nfunc (t *T) Minus(o *T) *T {\n\treturn &T{n: t.n - o.n}\n}\n\nfunc (t *T) Add(k int) int {\n\treturn t.n + k\n}\n\n",
+		"\tfmt.Println(mk(100).Minus(mk(10).Minus(mk(1))).n, mk(1).Add(mk(10).Add(mk(100).Add(1000))), mk(5).Minus(mk(3)).Minus(mk(1)).n)\n\tfmt.Println(mk(50).Minus(mk(20).Minus(mk(7).Minus(mk(2)))).n, mk(9).Minus(mk(mk(1).Add(mk(2).Add(3)))).n)\n",
+		"91 1111 1\n35 3\n")
 	// typed multi-name declarations fed by a multi-result call, in the middle of other live locals
 	add("func two() (int, int) {\n\treturn 3, 4\n}\n\nfunc three() (float64, float64, float64) {\n\treturn 1, 2, 3\n}\n\n",
 		"\tp := 100\n\tvar a, b int = two()\n\tq := 200\n\tvar x, y, z float64 = three()\n\tvar c, d = two()\n\tfmt.Println(p+a+b+q, a, b, x/2, y/2, z/2, c, d)\n",
